@@ -7,6 +7,7 @@
 #include <complex>
 #include <amgcl/value_type/complex.hpp>
 #include <amgcl/value_type/static_matrix.hpp>
+#include <amgcl/detail/spgemm.hpp>
 #include "harness_main.hpp"
 
 const char *CHECK_ID = "C08";
@@ -85,6 +86,18 @@ Result execute(const Plan &p) {
             if (!unsorted && has_duplicates(*Cm)) res.fail(sig("wellformed", "duplicates", "duplicate column in a product row of row-sorted inputs"));
             if (p.get("sortflag") && nt <= 16 && !rows_sorted(*Cm)) res.fail(sig("wellformed", "sorted", "product(.., sort=true) returned an unsorted row"));
             if (nt > 16) res.counts["spgemm_rmerge_path"]++; else res.counts["spgemm_saad_path"]++;
+            // both algorithms called directly, whatever the thread count selects: every team size / chunking for either
+            for (int alg = 0; alg < 2; ++alg) {
+                be::crs<double> D; if (alg == 0) be::spgemm_saad(*Ma, *Mb, D, p.get("sortflag") != 0); else be::spgemm_rmerge(*Ma, *Mb, D);
+                const char *an = alg == 0 ? "spgemm_saad-direct" : "spgemm_rmerge-direct";
+                std::string wf2 = crs_wellformed(D); if (!wf2.empty()) { res.fail(sig("wellformed", an, wf2)); continue; }
+                if (D.nrows != (size_t)n || D.ncols != (size_t)m) res.fail(sig("dense-definition", an, fmt("product is %zu x %zu, expected %ld x %ld", D.nrows, D.ncols, n, m)));
+                std::string e2 = same_matrix(entries(D), want, true); if (!e2.empty()) res.fail(sig("dense-definition", an, e2));
+                if (!unsorted && has_duplicates(D)) res.fail(sig("wellformed", an, "duplicate column in a product row of row-sorted inputs"));
+                if (alg == 0 && p.get("sortflag") && !rows_sorted(D)) res.fail(sig("wellformed", an, "spgemm_saad(.., sort=true) returned an unsorted row"));
+                if (alg == 1 && !unsorted && !rows_sorted(D)) res.fail(sig("wellformed", an, "spgemm_rmerge returned an unsorted row for row-sorted inputs"));
+            }
+            res.counts["spgemm_direct_calls"] += 2;
             break; }
         case K_SUM: {
             gen::Csr A = gen::make_rect(n, m, ms, (int)p.get("density"), true, unsorted), B = gen::make_rect(n, m, ms + 1, (int)p.get("density"), true, unsorted);
@@ -179,8 +192,12 @@ Result execute(const Plan &p) {
             size_t cnt = 0; bool bad = false;
             for (size_t i = 0; i < T->nrows && !bad; ++i) for (ptrdiff_t j = T->ptr[i]; j < T->ptr[i+1]; ++j, ++cnt) { auto w = want.find(std::make_pair((long)i, (long)T->col[j])); if (w == want.end() || w->second != T->val[j]) { bad = true; res.fail(sig("dense-definition", "conjugate-transpose", fmt("entry (%zu,%ld) is not the conjugate of the source entry", i, (long)T->col[j]))); break; } }
             if (!bad && cnt != want.size()) res.fail(sig("dense-definition", "conjugate-transpose", "entry count differs"));
-            // A * A^H is Hermitian with real non-negative diagonal
+            // A * A^H against the exact complex model (integer parts: exact), Hermitian with real non-negative diagonal
             auto G = be::product(A, *T, true);
+            { std::map<std::pair<long,long>, Cx> wg, gg; for (long i = 0; i < n; ++i) for (ptrdiff_t j = A.ptr[i]; j < A.ptr[i+1]; ++j) for (ptrdiff_t q = T->ptr[A.col[j]]; q < T->ptr[A.col[j]+1]; ++q) wg[std::make_pair(i, (long)T->col[q])] += A.val[j] * T->val[q];
+              for (size_t i = 0; i < G->nrows; ++i) for (ptrdiff_t j = G->ptr[i]; j < G->ptr[i+1]; ++j) gg[std::make_pair((long)i, (long)G->col[j])] += G->val[j];
+              bool okp = true; for (auto &e : gg) { auto w2 = wg.find(e.first); Cx wv = w2 == wg.end() ? Cx(0, 0) : w2->second; if (e.second != wv) { okp = false; res.fail(sig("dense-definition", "complex-product-values", fmt("(A A^H)(%ld,%ld) = %g%+gi, definition %g%+gi", e.first.first, e.first.second, e.second.real(), e.second.imag(), wv.real(), wv.imag()))); break; } }
+              if (okp) for (auto &e : wg) if (e.second != Cx(0, 0) && !gg.count(e.first)) { res.fail(sig("dense-definition", "complex-product-values", fmt("entry (%ld,%ld) of the definition is missing", e.first.first, e.first.second))); break; } }
             for (size_t i = 0; i < G->nrows; ++i) for (ptrdiff_t j = G->ptr[i]; j < G->ptr[i+1]; ++j) if ((size_t)G->col[j] == i && (G->val[j].imag() != 0 || G->val[j].real() < 0)) { res.fail(sig("dense-definition", "complex-product", fmt("(A A^H)(%zu,%zu) = %g%+gi", i, i, G->val[j].real(), G->val[j].imag()))); i = G->nrows; break; }
             break; }
         case K_BLOCK: {
